@@ -27,6 +27,7 @@ RATES = [0.1, 1.0, 30.0]
 FAMS = ["Normal", "LogNormal", "Gumbel", "Cauchy", "Laplace", "Logistic", "StudentT", "Uniform", "Exponential"]
 T = [-30.0, -3.0, -0.5, 0.0, 0.1, 1.0, 8.0, 1e3]
 N = 100_000
+TINY = float(np.finfo(np.float64).tiny)  # XLA CPU flushes denormals to zero: the smallest NORMAL number is the neighbour of 0
 DKW = float(np.sqrt(np.log(2 / 1e-9) / (2 * N)))
 
 
@@ -97,11 +98,11 @@ def eval_points(fam, a, b, shape):
     elif fam == "Exponential":
         for t in (-1.0, 0.0, 1e-12, 0.1, 1.0, 8.0, 50.0):
             pts.append(t / Bb)
-        pts += [np.full(shape, np.nextafter(0.0, -1)), np.full(shape, np.nextafter(0.0, 1))]
+        pts += [np.full(shape, -TINY), np.full(shape, TINY)]
     elif fam == "LogNormal":
         for t in T[:-1]:
             pts.append(np.exp(np.clip(A + Bb * t, -700, 700)))
-        pts += [np.zeros(shape), np.full(shape, -1.0), np.full(shape, np.nextafter(0.0, 1))]
+        pts += [np.zeros(shape), np.full(shape, -1.0), np.full(shape, TINY)]
     else:
         for t in T:
             pts.append(A + Bb * t)
@@ -136,7 +137,7 @@ def run_case(case):
         if seen[sig] <= 1:
             viols.append({"sig": sig, "msg": msg, "detail": {k: v for k, v in case.items() if k != "id"}})
 
-    def cmp_logprob(d, ref_fn, X, shape, what):
+    def cmp_logprob(d, ref_fn, X, shape, what, edge=None):
         nonlocal tr, nt, sample, max_ratio
         lp = np.asarray(d.log_prob(jnp.asarray(X)), float)
         with np.errstate(all="ignore"):
@@ -157,6 +158,10 @@ def run_case(case):
         tol = 1e-9 * n_ev * (1 + np.abs(ref))
         bad = ~((err <= tol) | (lp == ref))
         bad &= ~np.isnan(lp)
+        if edge is not None:
+            # exactly on (or within rounding of) an end of the support the density is a convention (measure zero):
+            # either the interior value or -inf is accepted there
+            bad &= ~(edge & ((lp == -np.inf) | (err <= tol) | ((ref == -np.inf) & np.isfinite(lp))))
         ok = ~bad & np.isfinite(ref)
         if ok.any():
             max_ratio = max(max_ratio, float(np.max(err[ok] / tol[ok])))
@@ -228,7 +233,13 @@ def run_case(case):
                 add("shape", f"{case['id']}: shape {d.shape}, broadcast of the parameters is {shape}")
                 continue
             X = eval_points(fam, a, b, shape)
-            cmp_logprob(d, ref.logpdf, X, shape, f"params a={a.tolist()} b={b.tolist()} df={None if df is None else df.tolist()}")
+            edge = None
+            A2, B2 = np.broadcast_to(a, shape), np.broadcast_to(b, shape)
+            if fam == "Uniform":
+                edge = ((np.abs(X - A2) <= 4e-16 * (np.abs(A2) + B2)) | (np.abs(X - A2 - B2) <= 4e-16 * (np.abs(A2) + B2))).reshape(X.shape[0], -1).any(1)
+            elif fam in ("Exponential", "LogNormal"):
+                edge = (X == 0).reshape(X.shape[0], -1).any(1)
+            cmp_logprob(d, ref.logpdf, X, shape, f"params a={a.tolist()} b={b.tolist()} df={None if df is None else df.tolist()}", edge=edge)
             cmp_access(d, acc, shape)
             if leg == "family" or ci % 4 == 0:
                 A_, B_ = np.broadcast_to(a, shape).reshape(-1), np.broadcast_to(b, shape).reshape(-1)
@@ -305,7 +316,9 @@ def run_case(case):
                     if not np.all((np.abs(lp - base) <= 1e-9 * (1 + np.abs(base))) | (lp == base)):
                         add("mixture|rescale", f"{case['id']}: log_prob changed when the weights were rescaled by {mult}")
             tr += 1
-            lw = np.asarray(jax.jit(lambda m: __import__("flowjax").wrappers.unwrap(m).log_normalized_weights)(d), float)
+            from flowjax.wrappers import unwrap
+
+            lw = np.asarray(unwrap(d).log_normalized_weights, float)
             if abs(np.exp(lw).sum() - 1) > 1e-12 or not np.allclose(np.exp(lw), W / W.sum(), rtol=1e-10):
                 add("mixture|weights", f"{case['id']}: exp(log_normalized_weights) = {np.exp(lw).tolist()} for weights {W.tolist()} x {mult}")
         d = D.VmapMixture(dist, jnp.asarray(W))
